@@ -114,32 +114,53 @@ def make_recorder_class(log, fault=None):
     """fault = {'at': index of the write_record call that fails, 'chunks': pieces written before the error, 'fired': ...}"""
     calls = [0]
 
+    def _archive_sizes(current):
+        d = os.path.dirname(current) or '.'
+        out = {}
+        try:
+            names = os.listdir(d)
+        except OSError:
+            names = []
+        for n in names:
+            if n.endswith(('.warc', '.warc.gz')):
+                p = os.path.join(d, n) if os.path.dirname(current) else n
+                try:
+                    out[p] = os.path.getsize(p)
+                except OSError:
+                    pass
+        return out
+
     class ObservedRecorder(WARCRecorder):
-        def write_record(self, record):
-            fn = self._warc_filename
-            before = os.path.getsize(fn) if os.path.exists(fn) else 0
+        def write_record(self, record, *args, **kwargs):
+            # which file grows is OBSERVED (directory sizes before / after), not taken from the recorder's own idea of it
+            cur = self._warc_filename
+            sizes0 = _archive_sizes(cur)
+            sizes0.setdefault(cur, os.path.getsize(cur) if os.path.exists(cur) else 0)
             k = calls[0]
             calls[0] += 1
             failing = fault is not None and fault['at'] == k
             ok = False
             try:
                 if failing:
-                    fault['fired'] = {'file': fn, 'before': before, 'type': record.fields.get('WARC-Type')}
-                    r = super().write_record(FailingRecord(record, fault['chunks']))
+                    fault['fired'] = {'file': cur, 'before': sizes0[cur], 'type': record.fields.get('WARC-Type')}
+                    r = super().write_record(FailingRecord(record, fault['chunks']), *args, **kwargs)
                 else:
-                    r = super().write_record(record)
+                    r = super().write_record(record, *args, **kwargs)
                 ok = True
                 return r
             finally:
-                after = os.path.getsize(fn) if os.path.exists(fn) else 0
+                sizes1 = _archive_sizes(cur)
                 if failing and not ok:
-                    fault['fired']['after'] = after
-                    fault['fired']['journal_left'] = os.path.exists(fn + '-wpullinc')
+                    fault['fired']['after'] = sizes1.get(cur, 0)
+                    fault['fired']['journal_left'] = os.path.exists(cur + '-wpullinc')
                 else:
-                    with open(fn, 'rb') as f:
-                        f.seek(before)
-                        data = f.read()
-                    log.append({'file': fn, 'before': before, 'after': after, 'data': data.hex()})
+                    grown = [f for f in sizes1 if sizes1[f] != sizes0.get(f, 0)] or [cur]
+                    for fn in sorted(grown):
+                        before = sizes0.get(fn, 0)
+                        with open(fn, 'rb') as f:
+                            f.seek(before)
+                            data = f.read()
+                        log.append({'file': fn, 'before': before, 'after': sizes1.get(fn, before), 'data': data.hex()})
     return ObservedRecorder
 
 
